@@ -41,7 +41,10 @@ def episode_for(project, rng, n_rules=10):
         kw = {"excl": excl} if excl else {}
         s0 = ep.scan(mpath=mp, ext=ext, **kw)
         below = [m for m in mods if m[:len(mp)] == mp]
-        for k in range(1, max(2, depth - len(mp) + 1)):
+        ks = list(range(1, max(2, depth - len(mp) + 1)))
+        if rng.random() < 0.3:
+            ks.append(depth + rng.randint(1, 3))          # a limit below every module: nothing is truncated
+        for k in ks:
             sk = ep.scan(mpath=mp, limit=k, ext=ext, **kw)
             ep.law("quotient", [s0, sk])
             keep = len(mp) + k
